@@ -514,9 +514,9 @@ Fixpoint signers_behavior (c : cfg) (sh : share) (role : N) (m : cmsg) (cs : cst
   | s :: tl => chk? signer_behavior c sh role m cs s; signers_behavior c sh role m cs tl
   end.
 
-(* the state update for one signer after all checks passed *)
-Definition update_signer (c : cfg) (m : cmsg) (cs : cstate) (s : N) : cstate + panic_site :=
-  let ss0 := match get_signer s cs with Some x => x | None => new_sstate end in
+(* the new state of one signer after all checks passed (None = no state yet) *)
+Definition next_sstate (c : cfg) (m : cmsg) (o : option sstate) : sstate + panic_site :=
+  let ss0 := match o with Some x => x | None => new_sstate end in
   let slot := c_height m in
   let round := c_round m in
   let ss1 :=
@@ -530,8 +530,14 @@ Definition update_signer (c : cfg) (m : cmsg) (cs : cstate) (s : N) : cstate + p
   match counts_record (ss_counts ss1) m with
   | inr p => inr p
   | inl cn =>
-      inl (set_signer s {| ss_slot := ss_slot ss1; ss_round := ss_round ss1; ss_counts := cn;
-                           ss_pdata := pd; ss_duties := ss_duties ss1 |} cs)
+      inl {| ss_slot := ss_slot ss1; ss_round := ss_round ss1; ss_counts := cn;
+             ss_pdata := pd; ss_duties := ss_duties ss1 |}
+  end.
+
+Definition update_signer (c : cfg) (m : cmsg) (cs : cstate) (s : N) : cstate + panic_site :=
+  match next_sstate c m (get_signer s cs) with
+  | inr p => inr p
+  | inl ss' => inl (set_signer s ss' cs)
   end.
 
 Fixpoint update_signers (c : cfg) (m : cmsg) (cs : cstate) (l : list N) : cstate + panic_site :=
@@ -599,6 +605,20 @@ Definition signer_behavior_partial (c : cfg) (role : N) (m : pmsg) (ss : sstate)
     chk? validate_duty_count ss role nd;
     if (slot <=? ss_slot ss)%N then pcounts_validate (ss_counts ss) (p_type m) else None.
 
+(* the new state of the signer of an accepted partial signature message *)
+Definition next_sstate_partial (c : cfg) (m : pmsg) (o : option sstate) : sstate + panic_site :=
+  let ss0 := match o with Some x => x | None => new_sstate end in
+  let ss1 := if (ss_slot ss0 <? p_slot m)%N
+             then reset_slot ss0 (p_slot m) firstRound
+                             (epoch_at c (ss_slot ss0) <? epoch_at c (p_slot m))%N
+             else ss0 in
+  match pcounts_record (ss_counts ss1) (p_type m) with
+  | inr p => inr p
+  | inl cn =>
+      inl {| ss_slot := ss_slot ss1; ss_round := ss_round ss1; ss_counts := cn;
+             ss_pdata := ss_pdata ss1; ss_duties := ss_duties ss1 |}
+  end.
+
 (* validatePartialSignatureMessage *)
 Definition validate_partial (c : cfg) (sh : share) (role : N) (m : pmsg)
            (verifier : option check) (cs : cstate) : result * cstate :=
@@ -614,17 +634,9 @@ Definition validate_partial (c : cfg) (sh : share) (role : N) (m : pmsg)
          | None => None end) with Some r => stop r | None =>
   match sig_format (p_sig_len m) (p_sig_zero m) with Some r => stop r | None =>
   match run_verifier verifier with Some r => stop r | None =>
-  let ss0 := match get_signer (p_signer m) cs with Some x => x | None => new_sstate end in
-  let ss1 := if (ss_slot ss0 <? p_slot m)%N
-             then reset_slot ss0 (p_slot m) firstRound
-                             (epoch_at c (ss_slot ss0) <? epoch_at c (p_slot m))%N
-             else ss0 in
-  match pcounts_record (ss_counts ss1) (p_type m) with
+  match next_sstate_partial c m (get_signer (p_signer m) cs) with
   | inr p => stop (Panic p)
-  | inl cn =>
-      (Accept, set_signer (p_signer m)
-                 {| ss_slot := ss_slot ss1; ss_round := ss_round ss1; ss_counts := cn;
-                    ss_pdata := ss_pdata ss1; ss_duties := ss_duties ss1 |} cs)
+  | inl ss' => (Accept, set_signer (p_signer m) ss' cs)
   end end end end end end.
 
 (* ---- validateSSVMessage ---------------------------------------------------------------------- *)
